@@ -125,6 +125,15 @@ def run(ctx):
                                 feats) if False else None
                     # compare not(eval(p)) with eval(negate(p)): build the reference through evaluation
                     _negate_check(ctx, p, on[1], envs, text, feats, viol)
+                    if n % 2 == 0:
+                        # history: negate a predicate derived (but()) from the one just negated
+                        for label, p2 in S.derive_with_but(p, 1):
+                            on2 = hplapi.outcome(p2.negate)
+                            ctx.count('derived_negate_judged')
+                            if on2[0] == 'ok' and getattr(on2[1], 'is_predicate', False) and not getattr(on2[1], 'is_vacuous', False) \
+                                    and not getattr(p2, 'is_vacuous', False):
+                                _negate_check(ctx, p2, on2[1], envs, f'{text}  -- then but() [{label}]: {str(p2)[:160]}',
+                                              feats | {'shape:derived-with-but'}, viol)
                 # join with a second predicate over the same context
                 tg = gen.Typed(rng, this=case.this, aliases=case.aliases, maxdepth=2)
                 qe = tg.bool(2)
